@@ -160,6 +160,15 @@ func (w *vfC17World) record(entry string, loc vfC17Loc, e string, code int, body
 		if traversal {
 			s.Class("reject:raw_under_pattern_dir")
 		}
+		if loc.Family == "abs" {
+			for _, p := range w.patterns {
+				if vfC17Glob(p.Text, loc.Raw) {
+					s.Class("reject:raw_matches_pattern")
+
+					break
+				}
+			}
+		}
 		if len(w.patterns) > 0 && loc.Family == "abs" {
 			for _, d := range []string{"allowedx/", "secret/allowed/", "allowed/sub/"} {
 				if strings.HasPrefix(loc.Target, w.root+"/"+d) {
@@ -182,18 +191,28 @@ func (w *vfC17World) record(entry string, loc vfC17Loc, e string, code int, body
 		s.Class("nontrivial")
 	}
 
-	cls := entry + ":" + e
+	// Samples are the actual cases, with the per-case temporary directory
+	// (field "T") written as <T> to keep them readable.
+	cls := strings.SplitN(entry, "_", 2)[0] + ":" + e
+	sample := func() (v any) {
+		short := strings.NewReplacer(w.base, "<T>")
+		sl := loc
+		sl.Raw = short.Replace(loc.Raw)
+		var ps []string
+		for _, p := range w.patterns {
+			ps = append(ps, short.Replace(p.Text))
+		}
+
+		return map[string]any{
+			"T": w.base, "entry": entry, "patterns": ps, "location": sl, "expect": e,
+			"code": code, "body": short.Replace(vfC17Clip(body)),
+		}
+	}
 	if s.WantSample(cls) {
-		s.Sample(cls, map[string]any{
-			"entry": entry, "patterns": vfC17PatternTexts(w.patterns), "location": loc, "expect": e,
-			"code": code, "body": vfC17Clip(body),
-		})
+		s.Sample(cls, sample())
 	}
 	if traversal && s.WantSample("traversal") {
-		s.Sample("traversal", map[string]any{
-			"entry": entry, "patterns": vfC17PatternTexts(w.patterns), "location": loc, "expect": e,
-			"code": code, "body": vfC17Clip(body),
-		})
+		s.Sample("traversal", sample())
 	}
 }
 
